@@ -69,6 +69,8 @@ type ServerSpec struct {
 	ClockBase    int64             `json:"clock_base,omitempty"` // unix seconds
 	ClockSkewS   int64             `json:"clock_skew_s,omitempty"`
 	Zone         int               `json:"zone,omitempty"` // offset seconds east of UTC
+	Scheme       string            `json:"scheme,omitempty"`     // scheme this server is served under ("" = https); its own IRIs use it
+	MintScheme   string            `json:"mint_scheme,omitempty"` // scheme of the ids Database.NewID mints ("" = the serving scheme)
 	ClockFine    bool              `json:"clock_fine,omitempty"` // clock advances by 1..1500 ms per read instead of 1 s
 }
 
